@@ -8,6 +8,9 @@ from manifest_texts import TEXTS, NOT_APPLICABLE
 
 NATIVE_NOTE = (" The layers of this check that need no synctest bubble (real goroutines, real sockets, real processes) are hosted twice: by the simulator built with go1.26.8 and "
                "by the same simulator built with the repository's own toolchain (the default go, bin/build_sim.sh native), so that what depends on the toolchain - crypto/tls, net, the runtime - is judged as shipped.")
+DAEMON_NOTE = (" One layer (mode=daemon) drives the dirk binary itself, built from the tree under test and started as a daemon process on a generated base directory "
+               "(configuration file, certificates, wallets in a filesystem store), over real gRPC/TLS: what main.go makes of the configuration is part of what is judged; the process is killed at "
+               "storage points or between requests, stopped and started again where the layer calls for it.")
 props = [json.loads(l)["id"] for l in open(os.path.join(VERIF, "properties.jsonl"))]
 hooks = subprocess.run(["git", "-C", "/repo", "log", "--format=%H %s", "c5f96c0..HEAD"], capture_output=True, text=True).stdout.strip().splitlines()
 hook_commits = [h.split()[0] for h in hooks if not h.split(" ", 1)[1].startswith("fix:")]
@@ -24,7 +27,8 @@ for p in props:
         "replay_cmd_template": "bin/check %s quick --replay {path}" % p,
         "engine": "dirk-dsim",
         "level_claimed": {"category": PLANS[p]["level"], "text": t["level_text"], "design_ref": t.get("design_ref", "DESIGN.md section 7, " + p)},
-        "level_note": t["level_note"] + (NATIVE_NOTE if any("native=1" in l.get("params", "") for l in PLANS[p]["quick"].get("layers", [])) else ""),
+        "level_note": t["level_note"] + (NATIVE_NOTE if any("native=1" in l.get("params", "") for l in PLANS[p]["quick"].get("layers", [])) else "")
+                      + (DAEMON_NOTE if any("mode=daemon" in l.get("params", "") for l in PLANS[p]["quick"].get("layers", [])) else ""),
         "technique": t["technique"],
     })
 claimed = {c["property_id"] for c in checks}
@@ -40,7 +44,7 @@ m = {
         "add_only": True,
     },
     "engines": [{"name": "dirk-dsim", "path": "/verif/sim", "serves_properties": sorted(claimed),
-                 "kind_free_text": "deterministic simulation with fault injection: real dirk services in one process under a seeded one-thread-at-a-time scheduler (testing/synctest quiescence + fake clock, enabledness from TryLock on the real mutexes), simulated DKG transport, crash/restart on directory images, reference-model and porcupine oracles; free-running (unscheduled, workload-seeded) layers for locks without hooks and true-parallelism failures; real gRPC/TLS edge tables; process-level kill, power-loss and full-disk layers; bubble-free layers also hosted by a build with the repository's own toolchain; bin/check drives 16+ worker processes, minimises and re-replays violations"}],
+                 "kind_free_text": "deterministic simulation with fault injection: real dirk services in one process under a seeded one-thread-at-a-time scheduler (testing/synctest quiescence + fake clock, enabledness from TryLock on the real mutexes), simulated DKG transport, crash/restart on directory images, reference-model and porcupine oracles; free-running (unscheduled, workload-seeded) layers for locks without hooks and true-parallelism failures; real gRPC/TLS edge tables; the dirk binary as a daemon process (main.go, configuration file) driven over gRPC/TLS; process-level kill, power-loss and full-disk layers; bubble-free layers also hosted by a build with the repository's own toolchain; bin/check drives 16+ worker processes, minimises and re-replays violations"}],
     "checks": checks,
     "notes": "rules/standard TestRules/PathDisallowed expects a permission error opening a store at '/', so it fails whenever the suite runs as root (also on the pristine commit); it is unrelated to the hooks. Replay files are written under /verif/replays/. See DESIGN.md.",
     "not_applicable": na,
